@@ -188,6 +188,23 @@ class Connection:
         self.stream.reset_seq()
 
     async def handle_change_user(self, data: bytes) -> None:
+        try:
+            await self._change_user(data)
+        except AuthenticationFailed:
+            raise
+        except Exception as e:  # pylint: disable=broad-except
+            # A COM_CHANGE_USER that fails in any way terminates the connection:
+            # the session must not keep running half-switched to the new user.
+            logger.exception(e)
+            if isinstance(e, MysqlError):
+                await self.stream.write(self.error(msg=e.msg, code=e.code))
+            else:
+                await self.stream.write(self.error(msg=e))
+            raise AuthenticationFailed() from e
+
+        await self.session.reset()
+
+    async def _change_user(self, data: bytes) -> None:
         com_change_user = packets.parse_com_change_user(
             capabilities=self.capabilities,
             client_charset=self.client_charset,
@@ -211,8 +228,6 @@ class Connection:
             client_plugin_name=com_change_user.client_plugin,
             connect_attrs=com_change_user.connect_attrs,
         )
-
-        await self.session.reset()
 
     async def authenticate(
         self,
